@@ -119,6 +119,9 @@ Ok(v) == res' = "ok" /\ val' = v
 CursorsSafe(h) == \A c \in Cursors :
     (cur[c].open /\ cur[c].h = h) => (cur[c].kind # "manual" \/ cur[c].parked)
 
+(* a mutating call may be made on h: a frozen tree refuses before it touches anything *)
+MayMutate(h) == Live(h) /\ (Frozen(h) \/ CursorsSafe(h))
+
 SetMap(h, m) == tree' = [tree EXCEPT ![h].map = m]
 
 (* BTree(t=..) / BTreeDict(t=..) / BTreeSet(t=..) *)
@@ -130,14 +133,14 @@ New(h, t) ==
 
 (* d[k] = v / s.add(k) / insert_element: insert or replace; val = what was displaced *)
 Set(h, k, v) ==
-    /\ Live(h) /\ CursorsSafe(h)
+    /\ MayMutate(h)
     /\ IF Frozen(h) THEN Refuse
        ELSE /\ SetMap(h, With(M(h), k, v))
             /\ Ok(OldVal(M(h), k)) /\ UNCHANGED cur
 
 (* d.update(..) / s |= ..: a run of insertions with one value, in the order of ks *)
 Load(h, ks, v) ==
-    /\ Live(h) /\ CursorsSafe(h) /\ Len(ks) > 0
+    /\ MayMutate(h) /\ Len(ks) > 0
     /\ IF Frozen(h) THEN Refuse
        ELSE /\ SetMap(h, [x \in (DOMAIN M(h)) \cup SeqRange(ks) |-> IF x \in SeqRange(ks) THEN v ELSE M(h)[x]])
             /\ Ok(NoVal) /\ UNCHANGED cur
@@ -145,7 +148,7 @@ Load(h, ks, v) ==
 (* del d[k], s.remove(k), d.pop(k): strict (absent key raises);
    delete_key(k), s.discard(k), d.pop(k, default): lenient *)
 Del(h, k, strict) ==
-    /\ Live(h) /\ CursorsSafe(h)
+    /\ MayMutate(h)
     /\ IF Frozen(h) \/ (strict /\ k \notin DOMAIN M(h)) THEN Refuse
        ELSE /\ SetMap(h, Without(M(h), k))
             /\ Ok(OldVal(M(h), k)) /\ UNCHANGED cur
@@ -153,7 +156,7 @@ Del(h, k, strict) ==
 (* delete_exact(element): same = the argument IS the stored element object.  With any
    other element (equal key or not) nothing is deleted. *)
 DelExact(h, k, same) ==
-    /\ Live(h) /\ CursorsSafe(h)
+    /\ MayMutate(h)
     /\ same => k \in DOMAIN M(h)
     /\ IF Frozen(h) \/ ~same THEN Refuse
        ELSE /\ SetMap(h, Without(M(h), k))
@@ -161,7 +164,7 @@ DelExact(h, k, same) ==
 
 (* d.popitem() / s.pop(): remove and return the first item in iteration order *)
 PopMin(h) ==
-    /\ Live(h) /\ CursorsSafe(h)
+    /\ MayMutate(h)
     /\ IF Frozen(h) \/ DOMAIN M(h) = {} THEN Refuse
        ELSE LET k == SetMin(DOMAIN M(h))
             IN /\ SetMap(h, Without(M(h), k))
@@ -169,7 +172,7 @@ PopMin(h) ==
 
 (* clear(); clearing a frozen EMPTY tree mutates nothing and may go either way *)
 Clear(h) ==
-    /\ Live(h) /\ CursorsSafe(h)
+    /\ MayMutate(h)
     /\ IF Frozen(h) /\ DOMAIN M(h) # {} THEN Refuse
        ELSE /\ SetMap(h, <<>>)
             /\ Ok(NoVal) /\ UNCHANGED cur
